@@ -8,7 +8,7 @@ ID = "C17"
 RULE = ("E-FULL: every day of the tier's year set (quick: 1900, 1999-2004, 2100, 2200; thorough: every day 1900-2200) at 3 "
         "instants x 7 units x floor/ceil/round/offset(k in {0,1,2,7,31,400}); every hour of 2000, 2021, 2100 (thorough: 10 years incl. 1900, 1969, 1970, 2038, 2200) for "
         "second/minute/hour; thorough: every k in 0..400 from each day of 12 years (1900 ... 2199). E-INPUT: range(t0,t1,dt) "
-        "for start instants around every month end/week boundary of 2019-2020 x 5 spans x dt 1..12 x 7 units. Oracle R-CAL "
+        "for start instants around every month end/week boundary of 2019-2020 x 5 spans x dt 1..12 x 7 units (for dt 1 and 5 also through the plural aliases d3_time['days'] ...); thorough: three enumerations of more than 10^6 boundaries. Oracle R-CAL "
         "(datetime/timedelta/calendar). Non-trivial: the instant is not itself a boundary / the range is non-empty.")
 ASSUMPTIONS = ["for the week unit with dt>1 only numbering-agnostic periodicity inside a year is demanded (the statement does not fix a week numbering)",
                "process time zone is UTC here; C18 owns the zone dimension"]
@@ -55,10 +55,13 @@ def plan(tier, seed):
     for y in ((2000, 2021, 2100) if tier == "quick" else (1900, 1969, 1970, 2000, 2004, 2021, 2038, 2100, 2199, 2200)):
         for q in range(4):
             shards.append({"kind": "hours", "y": y, "q": q})
-    starts = start_instants()
     n = 16
     for r in range(n):
         shards.append({"kind": "ranges", "mod": n, "rem": r})
+    if tier == "thorough":  # one enumeration of more than a million boundaries per fine unit
+        shards.append({"kind": "long", "unit": "second", "days": 13, "dt": 1})
+        shards.append({"kind": "long", "unit": "second", "days": 25, "dt": 2})
+        shards.append({"kind": "long", "unit": "minute", "days": 800, "dt": 1})
     return shards
 
 
@@ -86,10 +89,15 @@ def point_case(iv, u, op, t, k=None):
     return None
 
 
-def range_case(iv, u, t0, t1, dt):
+def range_case(iv, u, t0, t1, dt, plural=None):
     try:
-        with horizon(5.0):
+        with horizon(120.0):
             got = iv.range(t0, t1, dt)
+            if plural is not None:  # d3_time["days"] etc. are the same enumeration under another name
+                alias = plural(t0, t1, dt)
+                if list(alias) != list(got):
+                    return ("C17:%s.plural" % u, "d3_time[%r](%s, %s, %d) = %s..., the interval's range gives %s..."
+                            % (u + "s", t0, t1, dt, [str(x) for x in list(alias)[:3]], [str(x) for x in list(got)[:3]]))
     except Hang:
         return "HANG:%s.range" % u, "%s.range(%s, %s, %d) did not return" % (u, t0, t1, dt)
     except Exception as e:
@@ -168,6 +176,20 @@ def run_shard(shard):
                                 do_point(u, "offset", t, k)
             day += timedelta(days=1)
         acc.sample({"op": "ceil", "unit": "day", "t": end + TODS[1]})
+    elif kind == "long":
+        u = shard["unit"]
+        t0 = datetime(2019, 12, 25, 0, 0, 0, 500000)
+        t1 = t0 + timedelta(days=shard["days"])
+        bad = range_case(d3_time[u], u, t0, t1, shard["dt"])
+        acc.evals += 1
+        acc.states += 1
+        acc.trans += 1
+        acc.counters["range_ops"] += 1
+        acc.counters["long_ranges"] += 1
+        acc.nontriv += 1
+        if bad:
+            acc.violation({"op": "range", "unit": u, "t0": t0, "t1": t1, "dt": shard["dt"]}, bad[0], bad[1], order=(2, 0, 0, 0))
+        acc.sample({"op": "range", "unit": u, "t0": t0, "t1": t1, "dt": shard["dt"]})
     elif kind == "hours":
         y, q = shard["y"], shard["q"]
         t = datetime(y, 1 + 3 * q, 1)
@@ -196,7 +218,7 @@ def run_shard(shard):
                         acc.evals += 1
                         acc.trans += 1
                         acc.counters["range_ops"] += 1
-                        bad = range_case(d3_time[u], u, t0, t1, dt)
+                        bad = range_case(d3_time[u], u, t0, t1, dt, d3_time.get(u + "s") if dt in (1, 5) else None)
                         if sp:
                             acc.nontriv += 1
                         if bad:
@@ -210,7 +232,7 @@ def replay(case):
     from labella.d3_time import d3_time
     u = case["unit"]
     if case["op"] == "range":
-        return range_case(d3_time[u], u, case["t0"], case["t1"], case["dt"])
+        return range_case(d3_time[u], u, case["t0"], case["t1"], case["dt"], d3_time.get(u + "s"))
     return point_case(d3_time[u], u, case["op"], case["t"], case.get("k"))
 
 
